@@ -1,7 +1,7 @@
 """C10 - lowering a graph to a job and running a task preserves what each node computes."""
 from checks import common
 
-PROVED_TARGETS = []
+PROVED_TARGETS = ["cascade.low.func:ensure", "cascade.executor.runner.runner:run"]
 
 
 def run(tier, seed):
